@@ -155,7 +155,10 @@ impl Clone for StreamQueue {
     }
 }
 
-pub struct TransientStream(mux::Stream);
+pub struct TransientStream {
+    read: mux::ReadStream,
+    write: Option<mux::WriteStream>,
+}
 
 impl StreamQueue {
     pub fn new(ctx: &ctx::Ctx, max_streams: u32, rate: limiter::Rate) -> Self {
@@ -163,7 +166,8 @@ impl StreamQueue {
     }
     /// Opens (connect side) or accepts (accept side) one transient stream.
     pub async fn open(&self, ctx: &ctx::Ctx) -> ctx::OrCanceled<TransientStream> {
-        Ok(TransientStream(self.0.open(ctx).await?))
+        let s = self.0.open(ctx).await?;
+        Ok(TransientStream { read: s.read, write: Some(s.write) })
     }
 }
 
@@ -171,14 +175,18 @@ impl TransientStream {
     /// Reads up to `n` bytes; fewer means end of stream.
     pub async fn read(&mut self, ctx: &ctx::Ctx, n: usize) -> anyhow::Result<Vec<u8>> {
         let mut buf = noise::bytes::Buffer::new(n);
-        self.0.read.read_exact(ctx, &mut buf).await?;
+        self.read.read_exact(ctx, &mut buf).await?;
         Ok(buf.as_slice().to_vec())
     }
     pub async fn write_all(&mut self, ctx: &ctx::Ctx, data: &[u8]) -> anyhow::Result<()> {
-        self.0.write.write_all(ctx, data).await
+        self.write.as_mut().ok_or_else(|| anyhow::format_err!("write half closed"))?.write_all(ctx, data).await
     }
     pub async fn flush(&mut self, ctx: &ctx::Ctx) -> anyhow::Result<()> {
-        self.0.write.flush(ctx).await
+        self.write.as_mut().ok_or_else(|| anyhow::format_err!("write half closed"))?.flush(ctx).await
+    }
+    /// Drops the write half: the peer's reader sees end-of-stream.
+    pub fn close_write(&mut self) {
+        self.write.take();
     }
 }
 
